@@ -21,4 +21,15 @@ CLAIMED = {
                 "technique family). Trusted: Python semantics of attribute stores; weakref parent sets behave as sets.",
         "technique": "custom AST/CFG must-pass-through and guard-condition rules over the resolved node class hierarchy",
     },
+    "C12": {
+        "text": "Typestate and path rules on kafe2/fit/histogram/container.py, decided on the CFG of each function: every reader of the count array is "
+                "dominated by a flush of pending entries (or adds the pending count itself); underflow/bins/overflow use the filler's index convention; "
+                "in the single-pass filler the entry/edge comparison is `>=` (half-open bins, checked as an ordering over def-use roles, not as text), "
+                "every enumerated loop path that consumes an entry increments exactly one count by one and records the entry as processed, leftovers are "
+                "added to the overflow with their number, the pending list is cleared; rebin zeroes the counts and re-queues all processed entries "
+                "before clearing them. Each is a necessary condition of 'every entry counted exactly once, independent of batching and reads'.",
+        "note": "Independence of batching as a dynamic statement follows from these plus sorting and is not re-proved. A rewrite of the filler into a "
+                "different algorithm (e.g. np.searchsorted) is reported as ANALYSIS-ERROR (idiom not recognised), never as a violation.",
+        "technique": "typestate (flush-before-read) dominance check + path enumeration over the filler loop with def-use role inference",
+    },
 }
